@@ -170,6 +170,18 @@ def r_param_mutation(ctx, model):
             mp = mutated_params(f, summaries)
             if mp - table.get((mname, q), set()):
                 table[(mname, q)] = mp
+    # repository functions that hand back a freshly created object (every return is a fresh expression or a local bound to one)
+    fresh_returning = set()
+    for mname, mod in live_modules(model):
+        for q, f in mod.funcs.items():
+            rets = [r for r in ast.walk(f) if isinstance(r, ast.Return) and r.value is not None]
+            if not rets:
+                continue
+            fl = {st.targets[0].id for st in ast.walk(f) if isinstance(st, ast.Assign) and len(st.targets) == 1 and isinstance(st.targets[0], ast.Name) and is_fresh_expr(st.value)}
+            rebound_unfresh = {st.targets[0].id for st in ast.walk(f) if isinstance(st, ast.Assign) and len(st.targets) == 1 and isinstance(st.targets[0], ast.Name) and not is_fresh_expr(st.value)}
+            params_ = {a.arg for a in f.args.args}
+            if all(is_fresh_expr(r.value) or (isinstance(r.value, ast.Name) and r.value.id in fl - rebound_unfresh - params_) for r in rets):
+                fresh_returning.add(q.split(".")[-1])
     ctx.extra["functions_mutating_a_parameter"] = sorted(f"{m}:{q}({', '.join(sorted(p))})" for (m, q), p in table.items())
     n_sites = 0
     for (mname, q), params in sorted(table.items()):
@@ -197,7 +209,7 @@ def r_param_mutation(ctx, model):
                     for st in ast.walk(cf):
                         if isinstance(st, ast.Assign) and len(st.targets) == 1 and isinstance(st.targets[0], ast.Name) and is_fresh_expr(st.value):
                             fresh_locals.add(st.targets[0].id)
-                        if isinstance(st, ast.Assign) and isinstance(st.value, ast.Call) and (dotted_name(st.value.func) or "").split(".")[-1] in ("fill_cij", "read_table", "DataFrame"):
+                        if isinstance(st, ast.Assign) and isinstance(st.value, ast.Call) and (dotted_name(st.value.func) or "").split(".")[-1] in ({"fill_cij", "read_table", "DataFrame"} | fresh_returning):
                             for t in st.targets:
                                 if isinstance(t, ast.Name):
                                     fresh_locals.add(t.id)
@@ -209,7 +221,8 @@ def r_param_mutation(ctx, model):
                             if arg is None:
                                 continue
                             n_sites += 1
-                            ok = is_fresh_expr(arg) or (isinstance(arg, ast.Name) and arg.id in fresh_locals and arg.id not in {a.arg for a in cf.args.args})
+                            ok = is_fresh_expr(arg) or (isinstance(arg, ast.Name) and arg.id in fresh_locals and arg.id not in {a.arg for a in cf.args.args}) \
+                                or (isinstance(arg, ast.Call) and (dotted_name(arg.func) or "").split(".")[-1] in fresh_returning)
                             ctx.check(ok, f"{cm}:{cq} calls {short}() with a fresh {p}", Where(cmod.rel, cq, c.lineno), expected="a freshly created object (copy, constructor, arithmetic result)",
                                       found=src(arg), explanation=f"{short}() mutates its argument '{p}' in place; this call site passes an object that "
                                                                   f"is shared (attribute, parameter, cached value), so a cached result or the caller's data changes",
